@@ -359,7 +359,7 @@ where
         let mut acts = s.witness.clone();
         acts.push(a);
         let case = case_json(F::NAME, self.n, "exact", &acts);
-        guard::enter(&case.to_string());
+        let _guard_scope = guard::scoped(&case.to_string());
         self.transitions.fetch_add(1, Relaxed);
         match run_path::<F>(self.n, &self.alpha, true, &acts) {
             Ok((key, fp)) => {
@@ -593,7 +593,7 @@ fn sqrt_sweep(ctx: &Ctx, thorough: bool) -> u64 {
     };
     let n = pats.len() as u64;
     pats.par_chunks(1 << 16).for_each(|ch| {
-        guard::enter(&json!({"sys":"sqrt","bits":ch[0]}).to_string());
+        let _guard_scope = guard::scoped(&json!({"sys":"sqrt","bits":ch[0]}).to_string());
         for &b in ch {
             let x = f32::from_bits(b);
             let got = x.sample_sqrt() as f64;
@@ -632,7 +632,7 @@ fn adaptor_cases(ctx: &Ctx) -> u64 {
             let idx: Vec<usize> = (0..4).map(|j| (code / k.pow(j)) % k).collect();
             let frames: Vec<[f32; 2]> = idx.iter().map(|&i| alpha[i]).collect();
             let case = json!({"sys":"adaptor","n":n,"frames":idx});
-            guard::enter(&case.to_string());
+            let _guard_scope = guard::scoped(&case.to_string());
             evals += 1;
             let run = || -> Option<String> {
                 let (probe, c) = Probe::new(frames.clone());
@@ -698,7 +698,7 @@ fn main() {
         ctx.machinery_failure(&format!("build configuration mismatch: cfg(verif_nostd)={NOSTD} but sample_sqrt is {}", if approx { "the approximation" } else { "libm sqrt" }));
     }
     if let Some(v) = ctx.replay_case() {
-        guard::enter(&v.to_string());
+        let _guard_scope = guard::scoped(&v.to_string());
         ctx.finish_replay(catch(|| dispatch_replay(&v)).unwrap_or_else(|p| Some(format!("panic: {p}"))));
     }
     let nmax = ctx.tier.pick(3, 4);
@@ -742,7 +742,7 @@ fn main() {
         .par_iter()
         .map(|&(t, n)| {
             let mut c = 0u64;
-            guard::enter(&json!({"sys":"rms","frame": if t==0 {"[f32;1]"} else {"[f64;1]"},"n":n,"alphabet":"rough","actions":[],"note":"cancellation DFS root"}).to_string());
+            let _guard_scope = guard::scoped(&json!({"sys":"rms","frame": if t==0 {"[f32;1]"} else {"[f64;1]"},"n":n,"alphabet":"rough","actions":[],"note":"cancellation DFS root"}).to_string());
             let depth = (2 * n + 2).min(ctx.tier.pick(7, 8));
             if t == 0 {
                 cancel_dfs::<[f32; 1]>(ctx, n, depth, &mut c);
@@ -764,7 +764,7 @@ fn main() {
     djobs.par_iter().for_each(|&(t, n)| {
         let name = ["[f32;1]", "[f64;1]", "[i16;2]", "[u8;1]"][t];
         let case = json!({"sys":"drift","frame":name,"n":n,"steps":steps});
-        guard::enter(&case.to_string());
+        let _guard_scope = guard::scoped(&case.to_string());
         let r = match t {
             0 => drift_run::<[f32; 1]>(n, steps),
             1 => drift_run::<[f64; 1]>(n, steps),
@@ -782,7 +782,7 @@ fn main() {
     sjobs.par_iter().for_each(|&(t, n)| {
         let name = ["[f32;1]", "[f32;2]", "[f64;1]", "[i16;2]", "[u8;1]"][t];
         let case = json!({"sys":"exact_long","frame":name,"n":n});
-        guard::enter(&case.to_string());
+        let _guard_scope = guard::scoped(&case.to_string());
         let steps = 6 * n + 40;
         let r = match t {
             0 => exact_long_run::<[f32; 1]>(n, steps),
